@@ -214,25 +214,88 @@ def v_matcher(m):
     return Err("not-a-matcher:" + type(m).__name__)
 
 
-def mk_request(**hdrs):
-    """Request whose environ carries the given raw header values (None = header absent)."""
-    from webob import Request
+HDR_NAME = {"IF_MATCH": "If-Match", "IF_NONE_MATCH": "If-None-Match", "IF_RANGE": "If-Range"}
+HDR_ATTR = {"IF_MATCH": "if_match", "IF_NONE_MATCH": "if_none_match", "IF_RANGE": "if_range"}
+# every way a header value can reach the getters (configurations / argument shapes of the Request side)
+REQ_STYLES = ["environ", "headers", "headers-lower", "base-environ", "headers-view", "ctor-kw", "attr", "subclass-copy"]
+
+
+def mk_request(_style="environ", **hdrs):
+    """Request carrying the given raw header values (None = header absent), built in the way `_style` says:
+    environ       Request.blank + environ['HTTP_...'] = v afterwards
+    headers       Request.blank(headers={'If-Match': v})            headers-lower  the same with lower-case names
+    base-environ  BaseRequest(environ dict)                          headers-view   req.headers['IF-MATCH'] = v afterwards
+    ctor-kw       Request.blank('/', if_match=v) (attribute setter through the constructor)
+    attr          req.if_match = v afterwards                        subclass-copy  a POST Request subclass, then .copy()"""
+    from webob import Request, BaseRequest
+    present = {k: v for k, v in hdrs.items() if v is not None}
+    if _style == "headers":
+        return Request.blank("/", headers={HDR_NAME[k]: v for k, v in present.items()})
+    if _style == "headers-lower":
+        return Request.blank("/p?q=1", headers={HDR_NAME[k].lower(): v for k, v in present.items()})
+    if _style == "base-environ":
+        env = dict(Request.blank("/").environ)
+        env.update({"HTTP_" + k: v for k, v in present.items()})
+        return BaseRequest(env)
+    if _style == "ctor-kw":
+        return Request.blank("/", **{HDR_ATTR[k]: v for k, v in present.items()})
+    if _style == "subclass-copy":
+        class SubRequest(Request):
+            request_body_tempfile_limit = 1
+        req = SubRequest.blank("/x", POST={"a": "1"}, environ={"wsgi.url_scheme": "https", "REMOTE_USER": "u"})
+        for k, v in present.items():
+            req.environ["HTTP_" + k] = v
+        return req.copy()
     req = Request.blank("/")
-    for k, v in hdrs.items():
-        if v is not None:
+    for k, v in present.items():
+        if _style == "headers-view":
+            req.headers[HDR_NAME[k].upper()] = v
+        elif _style == "attr":
+            setattr(req, HDR_ATTR[k], v)
+        else:
             req.environ["HTTP_" + k] = v
     return req
 
 
-def impl_getters(value, probes):
-    req = mk_request(IF_MATCH=value, IF_NONE_MATCH=value)
+RESP_CFGS = ["plain", "subclass", "status-charset", "preexisting-etag-headers", "exc", "conditional"]
+
+
+def new_response(cfg="plain", **kw):
+    """A Response in one of the configurations that must not influence the ETag (class attributes overridden in a
+    subclass, status text, charset, headers already present under other spellings, an exception instance)."""
+    from webob import Response
+    import webob.exc
+    if cfg == "subclass":
+        class SubResponse(Response):
+            default_charset = "latin-1"
+            default_content_type = "text/plain"
+            default_conditional_response = True
+        return SubResponse(**kw)
+    if cfg == "status-charset":
+        return Response(status="200 Fine", charset="latin-1", body=b"x", **kw)
+    if cfg == "preexisting-etag-headers":
+        r = Response(headerlist=[("etag", '"old"'), ("Content-Type", "text/plain"), ("ETAG", 'W/"older"')])
+        for k, v in kw.items():
+            setattr(r, k, v)
+        return r
+    if cfg == "exc":
+        r = webob.exc.HTTPOk()
+        for k, v in kw.items():
+            setattr(r, k, v)
+        return r
+    if cfg == "conditional":
+        return Response(status=206, conditional_response=True, app_iter=[b"ab", b"c"], **kw)
+    return Response(**kw)
+
+
+def impl_getters(value, probes, style="environ"):
+    req = mk_request(style, IF_MATCH=value, IF_NONE_MATCH=value)
     im, inm = req.if_match, req.if_none_match
     return [v_matcher(im), [p in im for p in probes], v_matcher(inm), [p in inm for p in probes]]
 
 
-def impl_set_etag(arg):
-    from webob import Response
-    resp = Response()
+def impl_set_etag(arg, cfg="plain"):
+    resp = new_response(cfg)
     try:
         resp.etag = arg[1] if arg[0] == "str" else (arg[1], arg[2])
     except ValueError:
@@ -240,9 +303,10 @@ def impl_set_etag(arg):
     return [resp.headers.get("ETag"), resp.etag, resp.etag_strong]
 
 
-def mk_response(etag_hdr=None, lm_hdr=None):
-    from webob import Response
-    resp = Response()
+def mk_response(etag_hdr=None, lm_hdr=None, cfg="plain"):
+    resp = new_response(cfg)
+    if cfg == "preexisting-etag-headers":
+        del resp.headers["ETag"]
     if etag_hdr is not None:
         resp.headers["ETag"] = etag_hdr
     if lm_hdr is not None:
@@ -277,9 +341,9 @@ def in_if_range(resp, ir):
         raise
 
 
-def impl_if_range(value, resps):
+def impl_if_range(value, resps, style="environ"):
     from webob.etag import IfRange, IfRangeDate
-    req = mk_request(IF_RANGE=value)
+    req = mk_request(style, IF_RANGE=value)
     ir = req.if_range
     if type(ir) is IfRange:
         head = [0, v_matcher(ir.etag)]
@@ -287,7 +351,7 @@ def impl_if_range(value, resps):
         head = [1, ts(ir.date)]
     else:
         head = Err("not-an-if-range:" + type(ir).__name__)
-    return [head, [in_if_range(mk_response(e, l), ir) for e, l in resps]]
+    return [head, [in_if_range(mk_response(e, l, RESP_CFGS[i % len(RESP_CFGS)]), ir) for i, (e, l) in enumerate(resps)]]
 
 
 # =========================================================================== reference rendering (RFC 7232)
@@ -315,12 +379,8 @@ def fmt_date(t):
 # =========================================================================== the property oracle (public API only)
 def oracle_list(items, lead="", trail="", probes=None, style="environ", classify=True):
     """If-Match / If-None-Match carrying the rendered list: membership must be exact.  Returns (key, msg) or None."""
-    from webob import Request
     value = render(items, lead, trail)
-    if style == "headers":
-        req = Request.blank("/", headers={"If-Match": value, "If-None-Match": value})
-    else:
-        req = mk_request(IF_MATCH=value, IF_NONE_MATCH=value)
+    req = mk_request(style, IF_MATCH=value, IF_NONE_MATCH=value)
     alltags = [t for _, _, t in items]
     strong = [t for _, w, t in items if not w]
     if probes is None:
@@ -328,6 +388,8 @@ def oracle_list(items, lead="", trail="", probes=None, style="environ", classify
         for t in alltags[:3]:
             probes += [t + "x", t[:-1], t + '"', t + "\\", '"' + t + '"', "W/" + t, t + ", ", t + ","]
         probes += ["", "*", "zz", value, None]
+        # probe shapes outside str: never members, never an exception
+        probes += [alltags[0].encode("utf-8"), 5, 1.5, (alltags[0],), _StrSub(alltags[0] + "~")]
     try:
         im, inm = req.if_match, req.if_none_match
         for p in probes:
@@ -343,6 +405,10 @@ def oracle_list(items, lead="", trail="", probes=None, style="environ", classify
     except Exception as e:  # noqa
         return "etag-list:raises:" + type(e).__name__, "If-Match/If-None-Match: %s -- %s: %s" % (value, type(e).__name__, e)
     return None
+
+
+class _StrSub(str):
+    pass
 
 
 def _passes(items, lead="", trail=""):
@@ -384,26 +450,55 @@ def oracle_star_absent():
     return None
 
 
-def set_response_etag(v, strong, how):
-    """how: 'str' (resp.etag = v; strong only), 'pair' (resp.etag = (v, strong)), 'ctor' (Response(etag=...))."""
-    from webob import Response
+SET_HOWS = ["str", "pair", "ctor", "strsub", "pair-int", "pair-obj", "namedtuple", "after-none", "after-del"]
+
+
+def etag_arg_value(v, strong, how):
+    """the Python object assigned to Response.etag for a (v, strong) of the statement, in the shape `how`"""
+    import collections
+    if strong is None:
+        return _StrSub(v) if how == "strsub" else v
+    if how == "pair-int":
+        return (v, 1 if strong else 0)
+    if how == "pair-obj":
+        return (v, "yes" if strong else (None if len(v) % 2 else ""))
+    if how == "namedtuple":
+        return collections.namedtuple("ETagArg", "value strong")(v, strong)
+    if how == "strsub":
+        return (_StrSub(v), strong)
+    return (v, strong)
+
+
+def set_response_etag(v, strong, how, cfg="plain"):
+    """how: see SET_HOWS -- 'str'/'strsub' with strong=None assign the text, the pair forms assign (v, strong) with the
+    flag spelled as bool / int / other truthy-falsy object / namedtuple; 'ctor' passes etag= to the constructor;
+    'after-none' / 'after-del' first set another tag and remove it again."""
+    val = etag_arg_value(v, strong, how)
     if how == "ctor":
-        return Response(etag=v if strong is None else (v, strong))
-    resp = Response()
-    resp.etag = v if how == "str" else (v, strong)
+        return new_response(cfg, etag=val)
+    resp = new_response(cfg)
+    if how in ("after-none", "after-del"):
+        resp.etag = ("previous", strong is False)
+        if how == "after-none":
+            resp.etag = None
+        else:
+            del resp.etag
+        if resp.headers.get("ETag") is not None or resp.etag is not None:
+            raise AssertionError("removing Response.etag left %r" % resp.headers.getall("ETag"))
+    resp.etag = val
     return resp
 
 
-def oracle_etag(v, strong, how, neighbours=("x", "y"), sep=", "):
+def oracle_etag(v, strong, how, neighbours=("x", "y"), sep=", ", cfg="plain", style="environ"):
     """Response.etag set from v / (v, strong): one quoted entity-tag, reads back, matches when echoed."""
     st = True if strong is None else strong
     try:
-        resp = set_response_etag(v, strong, how)
+        resp = set_response_etag(v, strong, how, cfg)
         raw = resp.headers.get("ETag")
         want = ("" if st else "W/") + '"' + v + '"'
         if raw != want or len(resp.headers.getall("ETag")) != 1:
-            return "etag-response:not-one-quoted-tag", "Response.etag = %r (strong=%r): raw ETag header is %r, expected %r" % (
-                v, strong, raw, want)
+            return "etag-response:not-one-quoted-tag", "Response.etag = %r (strong=%r, %s, %s response): ETag headers are %r, " \
+                                                       "expected exactly [%r]" % (v, strong, how, cfg, resp.headers.getall("ETag"), want)
         if resp.etag != v:
             return "etag-response:read-back", "Response.etag = %r (strong=%r): reads back as %r" % (v, strong, resp.etag)
         if resp.etag_strong != (v if st else None):
@@ -415,13 +510,13 @@ def oracle_etag(v, strong, how, neighbours=("x", "y"), sep=", "):
         for lst in ([me], [(False, a), me], [me, (True, b)], [(True, a), me, (False, b)]):
             echo = sep.join(render_tag(w, t) for w, t in lst)
             want_im = any(t == v and not w for w, t in lst)
-            req = mk_request(IF_MATCH=echo, IF_NONE_MATCH=echo)
+            req = mk_request(style, IF_MATCH=echo, IF_NONE_MATCH=echo)
             if (resp.etag in req.if_none_match) is not True:
                 return classify_echo(lst, sep), "ETag %s echoed as If-None-Match: %s does not match the response" % (raw, echo)
             if (resp.etag in req.if_match) is not want_im:
                 return classify_echo(lst, sep), "ETag %s echoed as If-Match: %s: match is %r, expected %r" % (
                     raw, echo, resp.etag in req.if_match, want_im)
-        req = mk_request(IF_RANGE=raw)
+        req = mk_request(style, IF_RANGE=raw)
         if (resp in req.if_range) is not st:
             return "etag-response:echo-if-range", "ETag %s echoed as If-Range: (resp in request.if_range) is %r, expected %r" % (
                 raw, resp in req.if_range, st)
@@ -436,14 +531,15 @@ def classify_echo(lst, sep):
     return "etag-response:echo" if k == "etag-list:membership" else k
 
 
-def oracle_if_range_tag(t, weak, resp_specs):
+def oracle_if_range_tag(t, weak, resp_specs, style="environ"):
     """If-Range: "t" (or W/"t") matches only a response whose strong ETag equals t (and does match it when strong)."""
     value = render_tag(weak, t)
     try:
-        req = mk_request(IF_RANGE=value)
+        req = mk_request(style, IF_RANGE=value)
         ir = req.if_range
-        for (v, strong) in resp_specs:
-            resp = set_response_etag(v, strong, "pair") if v is not None else mk_response()
+        for i, (v, strong) in enumerate(resp_specs):
+            cfg = RESP_CFGS[(i + len(t)) % len(RESP_CFGS)]
+            resp = set_response_etag(v, strong, "pair", cfg) if v is not None else mk_response(cfg=cfg)
             has_strong = v is not None and strong and v == t
             got = resp in ir
             if got and not has_strong:
@@ -457,42 +553,81 @@ def oracle_if_range_tag(t, weak, resp_specs):
     return None
 
 
-def oracle_if_range_date(d, lms, how="header"):
+def set_last_modified(resp, lm, how):
+    """Last-Modified = the instant lm (seconds), given in the shape `how`"""
+    import datetime
+    utc = datetime.timezone.utc
+    if how == "header":
+        resp.headers["Last-Modified"] = fmt_date(lm)
+    elif how == "attr":
+        resp.last_modified = datetime.datetime.fromtimestamp(lm, utc)
+    elif how == "naive":
+        resp.last_modified = datetime.datetime.fromtimestamp(lm, utc).replace(tzinfo=None)
+    elif how == "aware+5":
+        try:
+            tz = datetime.timezone(datetime.timedelta(hours=5, minutes=30))
+            resp.last_modified = datetime.datetime.fromtimestamp(lm, tz)
+        except (OverflowError, ValueError):      # 31 Dec 9999 has no +05:30 spelling: use a western zone instead
+            tz = datetime.timezone(datetime.timedelta(hours=-5, minutes=-30))
+            resp.last_modified = datetime.datetime.fromtimestamp(lm, tz)
+    elif how == "int":
+        resp.last_modified = lm
+    elif how == "text":
+        resp.last_modified = fmt_date(lm)
+    else:
+        raise ValueError(how)
+
+
+LM_HOWS = ["header", "attr", "naive", "aware+5", "int", "text"]
+DATE_FORMS = ["imf", "rfc850", "attr-datetime", "attr-naive"]
+
+
+def oracle_if_range_date(d, lms, how="header", form="imf", style="environ"):
     """If-Range: <HTTP-date d> matches exactly the responses whose Last-Modified is not later than d."""
     import datetime
-    from webob import Response
+    import time
+    utc = datetime.timezone.utc
     value = fmt_date(d)
     try:
-        req = mk_request(IF_RANGE=value)
+        if form == "rfc850" and 0 <= d < 2145916800:        # obsolete form, two-digit year: 1970..2037 only
+            value = time.strftime("%A, %d-%b-%y %H:%M:%S GMT", time.gmtime(d))
+            req = mk_request(style, IF_RANGE=value)
+        elif form == "attr-datetime":                        # request.if_range = datetime (serialize_if_range)
+            req = mk_request()
+            req.if_range = datetime.datetime.fromtimestamp(d, utc)
+        elif form == "attr-naive":
+            req = mk_request()
+            req.if_range = datetime.datetime.fromtimestamp(d, utc).replace(tzinfo=None)
+        else:
+            req = mk_request(style, IF_RANGE=value)
         ir = req.if_range
-        for lm in lms:
+        for i, lm in enumerate(lms):
+            resp = new_response(RESP_CFGS[(i + d) % len(RESP_CFGS)])
             if lm is None:
-                resp, want = Response(), False
-            elif how == "header":
-                resp, want = mk_response(None, fmt_date(lm)), lm <= d
+                want = False
             else:
-                resp = Response()
-                resp.last_modified = datetime.datetime.fromtimestamp(lm, datetime.timezone.utc)
+                set_last_modified(resp, lm, how)
                 want = lm <= d
             got = resp in ir
             if bool(got) is not want:
-                return "if-range:date", "If-Range: %s against Last-Modified %r: match is %r, expected %r" % (
-                    value, resp.headers.get("Last-Modified"), got, want)
-        if not (Response() in mk_request().if_range and mk_response('"x"', fmt_date(d)) in mk_request(IF_RANGE="").if_range):
+                return "if-range:date", "If-Range: %s (%s) against Last-Modified %r (%s): match is %r, expected %r" % (
+                    req.environ.get("HTTP_IF_RANGE"), form, resp.headers.get("Last-Modified"), how, got, want)
+        if not (new_response() in mk_request(style).if_range and
+                mk_response('"x"', fmt_date(d)) in mk_request(style, IF_RANGE="").if_range):
             return "if-range:absent", "an absent/empty If-Range does not match every response"
     except Exception as e:  # noqa
         return "if-range:raises:" + type(e).__name__, "If-Range: %s -- %s: %s" % (value, type(e).__name__, e)
     return None
 
 
-def oracle_malformed(value):
+def oracle_malformed(value, style="environ"):
     """Any header value: every getter returns a matcher, and tag membership answers with a bool."""
     from webob.etag import ETagMatcher, IfRange, IfRangeDate, _AnyETag, _NoETag
     from webob import Response
     for which in ("if_match", "if_none_match", "if_range"):
         key = {"if_match": "IF_MATCH", "if_none_match": "IF_NONE_MATCH", "if_range": "IF_RANGE"}[which]
         try:
-            m = getattr(mk_request(**{key: value}), which)
+            m = getattr(mk_request(style, **{key: value}), which)
         except Exception as e:  # noqa
             if which == "if_range" and value.endswith(" GMT") and isinstance(e, (ValueError, OverflowError, OSError)):
                 key = "if-range:unrepresentable-date-raises"     # parse_date lets datetime/mktime_tz errors escape
@@ -771,6 +906,145 @@ def r_resp_history(rng, length):
     return steps
 
 
+# =========================================================================== argument shapes of the request-side setters
+def oracle_setter_shapes(tags, which, form):
+    """request.<which> assigned a matcher OBJECT (the setter stores str(val)), removed with None / del; If-Range assigned
+    an IfRange object.  tags are quote-free, so the stored text is an entity-tag list and membership must be exact."""
+    from webob.etag import ETagMatcher, AnyETag, NoETag, IfRange
+    try:
+        req = mk_request()
+        absent = which != "if_none_match"            # what an absent header answers
+        if form == "matcher":
+            obj = ETagMatcher(list(tags))
+            setattr(req, which, IfRange(obj) if which == "if_range" else obj)
+            text = req.environ.get("HTTP_" + GETTERS[which])
+            if text != ", ".join('"%s"' % t for t in tags):
+                return "setter-shapes:text", "request.%s = ETagMatcher(%r) stored %r" % (which, tags, text)
+            ref = {"kind": "tags", "all": list(tags), "strong": list(tags)}
+            if which == "if_range" and len(tags) != 1:
+                ref = None       # If-Range carries one tag; several is outside the statement (no crash is all we ask)
+        elif form == "any":
+            setattr(req, which, IfRange(AnyETag) if which == "if_range" else AnyETag)
+            ref = {"kind": "star"} if which != "if_range" else {"kind": "absent"}     # str(IfRange(AnyETag)) == ""
+        elif form == "no":
+            setattr(req, which, IfRange(NoETag) if which == "if_range" else NoETag)
+            ref = {"kind": "absent"}
+        elif form == "none-after-value":
+            req.environ["HTTP_" + GETTERS[which]] = '"x"'
+            setattr(req, which, None)
+            ref = {"kind": "absent"}
+        else:  # del-after-value
+            req.environ["HTTP_" + GETTERS[which]] = '"x"'
+            delattr(req, which)
+            ref = {"kind": "absent"}
+        resps = _Resps()
+        for p in list(tags) + ["x", "zz", None]:
+            got = ask(req, which, p, resps)
+            if ref is not None and got is not ref_answer(ref, which, p):
+                return ("setter-shapes:" + form, "after request.%s = <%s %r>: (%r in request.%s) is %r, header text %r" % (
+                    which, form, tags, p, which, got, req.environ.get("HTTP_" + GETTERS[which])))
+    except Exception as e:  # noqa
+        return "setter-shapes:raises:" + type(e).__name__, "request.%s = <%s %r>: %s: %s" % (which, form, tags, type(e).__name__, e)
+    return None
+
+
+def oracle_md5_etag(body_hex, cfg):
+    """Response.md5_etag(): the generated value is quote-free, so the statement applies to it."""
+    try:
+        resp = new_response(cfg)
+        resp.md5_etag(bytes.fromhex(body_hex))
+        v, raw = resp.etag, resp.headers.get("ETag")
+        if not isinstance(v, str) or '"' in v or raw != '"%s"' % v or resp.etag_strong != v or \
+                len(resp.headers.getall("ETag")) != 1:
+            return "etag-response:md5", "md5_etag: header %r, etag %r, etag_strong %r" % (raw, v, resp.etag_strong)
+        req = mk_request(IF_NONE_MATCH='"zz",' + raw, IF_MATCH=raw + ' ,W/"zz"', IF_RANGE=raw)
+        if not (v in req.if_none_match and v in req.if_match and resp in req.if_range):
+            return "etag-response:md5-echo", "md5_etag %s does not match when echoed" % raw
+    except Exception as e:  # noqa
+        return "etag-response:md5:raises:" + type(e).__name__, "md5_etag: %s: %s" % (type(e).__name__, e)
+    return None
+
+
+# =========================================================================== outside the model's value domains
+OUTSIDE_ETAG_VALUES = [
+    ("quote", 'a"b'), ("quote", '"foo"'), ("quote", 'W/"foo"'), ("quote", '"'), ("quote", '\\"'), ("quote", 'a\\"b'),
+    ("quote", ' "x"'), ("quote", '"a", "b"'), ("quote", 'W/"'), ("quote", '""'), ("quote", '"a'), ("quote", 'a"'),
+    ("crlf", "a\nb"), ("crlf", "a\rb"), ("crlf", "\n"), ("crlf", 'a"\r\nX-Injected: 1'), ("crlf", "a\r\nSet-Cookie: x=1"),
+    ("type", b"abc"), ("type", 5), ("type", ["a", True]), ("type", ("a", True, 1)), ("type", (b"a", True)), ("type", ()),
+    ("type", (None, True)), ("type", 1.5), ("type", {"a": 1}),
+]
+
+
+def oracle_etag_outside(index, pair, cfg):
+    """Values the statement does not cover (double quotes, CR/LF, non-str): what stays meaningful is checked -- the
+    documented refusals (ValueError for CR/LF; TypeError/ValueError for non-str shapes) leave no damaged header behind,
+    a value with quotes is stored as exactly one header without CR/LF and the two read views stay coherent."""
+    kind, v = OUTSIDE_ETAG_VALUES[index]
+    if pair is not None and isinstance(v, str):
+        v = (v, pair)
+    try:
+        resp = new_response(cfg)
+        resp.etag = ("old", True)
+        try:
+            resp.etag = v
+            raised = None
+        except Exception as e:  # noqa
+            raised = e
+        hs = resp.headers.getall("ETag")
+        allh = "".join(k + ": " + x for k, x in resp.headerlist)
+        if "\n" in allh or "\r" in allh or any("injected" in k.lower() or k.lower() == "set-cookie" for k, _ in resp.headerlist):
+            return "etag-outside:header-injection", "Response.etag = %r left CR/LF or a foreign header: %r" % (v, resp.headerlist)
+        if kind == "quote":
+            if raised is not None:
+                return "etag-outside:quote-raises:" + type(raised).__name__, "Response.etag = %r raises %r" % (v, raised)
+            if len(hs) != 1 or not isinstance(resp.etag, str) or resp.etag_strong not in (None, resp.etag):
+                return "etag-outside:quote-incoherent", "Response.etag = %r: headers %r, etag %r, etag_strong %r" % (
+                    v, hs, resp.etag, resp.etag_strong)
+        elif kind == "crlf":
+            if not isinstance(raised, ValueError):
+                return "etag-outside:crlf-not-refused", "Response.etag = %r: %r, headers %r" % (v, raised, hs)
+            if hs not in ([], ['"old"']):
+                return "etag-outside:crlf-damaged-header", "Response.etag = %r refused but headers are %r" % (v, hs)
+        else:
+            if not isinstance(raised, (TypeError, ValueError, AttributeError)):
+                return "etag-outside:type-not-refused", "Response.etag = %r: %r, headers now %r" % (v, raised, hs)
+            if hs not in ([], ['"old"']):
+                return "etag-outside:type-damaged-header", "Response.etag = %r refused but headers are %r" % (v, hs)
+    except Exception as e:  # noqa
+        return "etag-outside:raises:" + type(e).__name__, "Response.etag = %r: %s: %s" % (v, type(e).__name__, e)
+    return None
+
+
+def oracle_header_outside(which, form):
+    """Header values that are not str (PEP 3333 requires native strings): the getter may only refuse with TypeError,
+    (AttributeError from IfRange.parse), never return a non-matcher or damage the environ; an asctime date (no ' GMT') in If-Range is read as an opaque
+    value and must fail safe (match nothing)."""
+    from webob.etag import ETagMatcher, IfRange, IfRangeDate, _AnyETag, _NoETag
+    key = "HTTP_" + GETTERS[which]
+    value = {"bytes": b'"a"', "int": 5, "list": ['"a"'], "asctime": "Fri Nov  9 01:08:47 2001", "false": False, "zero": 0}[form]
+    try:
+        req = mk_request()
+        req.environ[key] = value
+        try:
+            m = getattr(req, which)
+        except (TypeError, AttributeError):      # not a str: refused (AttributeError: value.endswith in IfRange.parse)
+            m = None
+        except Exception as e:  # noqa
+            return "header-outside:raises:" + type(e).__name__, "request.%s with environ value %r raises %r" % (which, value, e)
+        if req.environ[key] is not value:
+            return "header-outside:environ-changed", "reading request.%s changed the environ value %r" % (which, value)
+        if m is not None and type(m) not in (ETagMatcher, _AnyETag, _NoETag, IfRange, IfRangeDate):
+            return "header-outside:not-a-matcher", "request.%s is %r for the environ value %r" % (which, m, value)
+        if form == "asctime" and which == "if_range":
+            r = set_response_etag("a", True, "pair")
+            set_last_modified(r, 1005268127, "header")
+            if r in m:
+                return "header-outside:asctime-matches", "If-Range %r (not recognised as a date) matches a response" % (value,)
+    except Exception as e:  # noqa
+        return "header-outside:raises:" + type(e).__name__, "request.%s with %r: %s: %s" % (which, value, type(e).__name__, e)
+    return None
+
+
 def run_getters_seq(seq, flip=0):
     """ONE Request; per step both headers are set to the value (None: removed), the two getters are evaluated in
     alternating order and probed.  Returns the per-step observations in the format of impl_getters."""
@@ -844,19 +1118,28 @@ def oracle_case(case):
         return oracle_star_absent()
     if k == "etag":
         return oracle_etag(case["v"], case["strong"], case["how"], tuple(case.get("neighbours", ("x", "y"))),
-                           case.get("sep", ", "))
+                           case.get("sep", ", "), case.get("cfg", "plain"), case.get("style", "environ"))
     if k == "if-range-tag":
-        return oracle_if_range_tag(case["t"], case["weak"], [tuple(x) for x in case["resps"]])
+        return oracle_if_range_tag(case["t"], case["weak"], [tuple(x) for x in case["resps"]], case.get("style", "environ"))
     if k == "if-range-date":
-        return oracle_if_range_date(case["d"], case["lms"], case.get("how", "header"))
+        return oracle_if_range_date(case["d"], case["lms"], case.get("how", "header"), case.get("form", "imf"),
+                                    case.get("style", "environ"))
     if k == "malformed":
-        return oracle_malformed(case["value"])
+        return oracle_malformed(case["value"], case.get("style", "environ"))
     if k == "req-history":
         return oracle_req_history(case["steps"])
     if k == "module-order":
         return oracle_module_order(case["items"], case["order"], case["shared"])
     if k == "resp-history":
         return oracle_resp_history(case["steps"])
+    if k == "setter-shapes":
+        return oracle_setter_shapes(case["tags"], case["which"], case["form"])
+    if k == "md5-etag":
+        return oracle_md5_etag(case["body"], case["cfg"])
+    if k == "etag-outside":
+        return oracle_etag_outside(case["index"], case["pair"], case["cfg"])
+    if k == "header-outside":
+        return oracle_header_outside(case["which"], case["form"])
     if k == "getters-seq":
         return oracle_getters_seq([tuple(x) for x in case["seq"]], case.get("flip", 0))
     if k == "set-etag-seq":
@@ -1033,8 +1316,10 @@ def run(ctx):
         probes = [None, "", "a", "b", "*"] + ([t for _, _, t in oc[0]["items"]] if oc else [])
         if v:
             probes += [v, v[1:-1], v[:-1]]
-        cases.append((cpair(costr(v), clist(costr(p) for p in probes)), impl_getters(v, probes),
-                      {"kind": "getters", "value": v, "probes": probes, "oracle": oc}))
+        style = REQ_STYLES[len(cases) % len(REQ_STYLES)]
+        cases.append((cpair(costr(v), clist(costr(p) for p in probes)), impl_getters(v, probes, style),
+                      {"kind": "getters", "value": v, "probes": probes, "style": style,
+                       "oracle": [dict(o, style=style) for o in oc]}))
     _corr(ctx, "getters", "(fun c : option str * list (option str) => obs_getters (fst c) (snd c))", cases, "(option str * list (option str))")
     # 3. Response.etag = v / (v, strong)
     r3 = ctx.sub_rng("corr-etag")
@@ -1049,7 +1334,9 @@ def run(ctx):
         oc = []
         if '"' not in a[1] and "\n" not in a[1] and "\r" not in a[1]:
             oc = [{"kind": "etag", "v": a[1], "strong": None if a[0] == "str" else a[2], "how": a[0]}]
-        cases.append((carg(a), impl_set_etag(a), {"kind": "set-etag", "arg": list(a), "oracle": oc}))
+        cfg = RESP_CFGS[len(cases) % len(RESP_CFGS)]
+        cases.append((carg(a), impl_set_etag(a, cfg), {"kind": "set-etag", "arg": list(a), "cfg": cfg,
+                                                        "oracle": [dict(o, cfg=cfg) for o in oc]}))
     _corr(ctx, "set-etag", "obs_set_etag", cases, "etag_arg")
     # 4. raw ETag headers (not necessarily written by the setter)
     hs = [None, ""] + [v for v, _ in corr_values(ctx, r3, n)]
@@ -1091,10 +1378,11 @@ def run(ctx):
                 except Exception:  # noqa
                     l = None
             resps.append((e, l))
-        obs = impl_if_range(value, resps)
+        style = REQ_STYLES[i % len(REQ_STYLES)]
+        obs = impl_if_range(value, resps, style)
         lit = "(%s, %s, %s)" % (clist(cpair(cstr(k_), cZopt(v_)) for k_, v_ in tbl.items()), costr(value),
                                 clist(cpair(costr(e), costr(l)) for e, l in resps))
-        cases.append((lit, obs, {"kind": "if-range", "value": value, "resps": [list(x) for x in resps], "oracle": oc}))
+        cases.append((lit, obs, {"kind": "if-range", "value": value, "style": style, "resps": [list(x) for x in resps], "oracle": oc}))
     _corr(ctx, "if-range", "(fun c : list (str * option Z) * option str * list (option str * option str) => obs_if_range (fst (fst c)) (snd (fst c)) (snd c))", cases,
           "(list (str * option Z) * option str * list (option str * option str))")
 
@@ -1150,13 +1438,16 @@ def run(ctx):
     tags2 = tags1 + [a + b for a in TAG_ALPHA for b in TAG_ALPHA]
     seps3 = [",", ", ", " , "]
 
+    cnt_ = [0]
+
     def exhaustive():
         for n_, tags, seps in ((1, tags2, [""]), (2, tags2, SEPS_RFC), (3, tags1, SEPS_RFC if ctx.thorough else seps3)):
             for ts_ in itertools.product(tags, repeat=n_):
                 for ws in itertools.product((False, True), repeat=n_):
                     for ss in itertools.product(seps, repeat=n_ - 1):
                         items = [(("" if i == 0 else ss[i - 1]), ws[i], ts_[i]) for i in range(n_)]
-                        yield list_case(items)
+                        cnt_[0] += 1
+                        yield list_case(items, style=REQ_STYLES[cnt_[0] % len(REQ_STYLES)])
         if ctx.thorough:
             for ts_ in itertools.product(tags2, repeat=2):
                 for sep in SEPS_RFC:
@@ -1165,8 +1456,12 @@ def run(ctx):
 
     seeds = [[("", False, "a"), (",", False, "b")], [("", False, "a"), (" ,", False, "b")],
              [("", False, "a\\"), (", ", False, "b")], [("", True, "a"), (",", True, "b"), ("\t,\t", False, "c")],
-             [("", False, "a, b"), (",", False, "c\\"), (" , ", True, "\\")]]
-    sweep("lists-seeds", [list_case(it) for it in seeds] + [list_case(it, ",", ",") for it in seeds])
+             [("", False, "a, b"), (",", False, "c\\"), (" , ", True, "\\")],
+             [("", False, "v1"), (", ", True, "v1")], [("", True, "v1"), (", ", False, "v1")],
+             [("", True, "v1"), (",", True, "v2"), (" ,", False, "v1"), (", ", True, "v1")],
+             [("", False, "v1"), (",", True, "v1"), (",", True, "v2"), (",", False, "v2"), (",", True, "v2")]]
+    sweep("lists-seeds", [list_case(it, style=st) for it in seeds for st in REQ_STYLES] +
+          [list_case(it, ",", ",") for it in seeds])
     sweep("lists-exhaustive", exhaustive(), lambda c: len(c["items"]) > 1 or not c["items"][0][2].isalnum())
 
     def random_lists():
@@ -1174,7 +1469,7 @@ def run(ctx):
         for i in range(ctx.scale(4000, 120000)):
             items = r_items(r, SEPS_RFC, 6, TAG_ALPHA + ["b", "W", "/", "*", "\t", "\\", "W/", "\xff", "Ā", "GMT"])
             yield list_case(items, r.choice(["", "", "", " ", ",", ", ", "\t"]), r.choice(["", "", "", " ", ",", " ,"]),
-                            "headers" if i % 4 == 0 else "environ")
+                            REQ_STYLES[i % len(REQ_STYLES)])
 
     sweep("lists-random", random_lists())
     sweep("star-absent", [{"kind": "star-absent"}])
@@ -1197,13 +1492,23 @@ def run(ctx):
                    "sep": r.choice(SEPS_RFC), "neighbours": [r_tag(r), r_tag(r)]}
 
     def fix_how(c):
-        if c["how"] == "str":
+        if c["how"] in ("str",):
             c["strong"] = None
-        if c["how"] == "pair" and c["strong"] is None:
+        if c["how"] in ("pair", "pair-int", "pair-obj", "namedtuple") and c["strong"] is None:
             c["strong"] = True
         return c
 
-    sweep("etag-roundtrip-echo", (fix_how(c) for c in etags()))
+    def with_cfg(cases_):
+        for i, c in enumerate(cases_):
+            c = fix_how(c)
+            c.setdefault("cfg", RESP_CFGS[i % len(RESP_CFGS)])
+            c.setdefault("style", REQ_STYLES[(i // 3) % len(REQ_STYLES)])
+            yield c
+            if i % 5 == 0:           # the same value through the other assignment shapes
+                h = SET_HOWS[3 + (i // 5) % (len(SET_HOWS) - 3)]
+                yield fix_how(dict(c, how=h, strong=c["strong"] if h in ("strsub", "after-none", "after-del") else bool(c["strong"])))
+
+    sweep("etag-roundtrip-echo", with_cfg(etags()))
 
     def if_range_tags():
         r = ctx.sub_rng("oracle-if-range")
@@ -1211,11 +1516,13 @@ def run(ctx):
         for t in tl:
             for weak in (False, True):
                 resps = [(None, True), (t, True), (t, False), (t + "x", True), ("", True), (t[:-1], True), (t + "\\", True)]
-                yield {"kind": "if-range-tag", "t": t, "weak": weak, "resps": [list(x) for x in resps]}
+                yield {"kind": "if-range-tag", "t": t, "weak": weak, "resps": [list(x) for x in resps],
+                       "style": REQ_STYLES[(len(t) + weak) % len(REQ_STYLES)]}
         for _ in range(ctx.scale(600, 20000)):
             t = r_tag(r, None, 5)
             resps = [(t, r.random() < 0.5), (r_tag(r), True), (None, True), (t + r.choice(["", "x", "\\", " "]), True)]
-            yield {"kind": "if-range-tag", "t": t, "weak": r.random() < 0.3, "resps": [list(x) for x in resps]}
+            yield {"kind": "if-range-tag", "t": t, "weak": r.random() < 0.3, "resps": [list(x) for x in resps],
+                   "style": r.choice(REQ_STYLES)}
 
     sweep("if-range-tag", if_range_tags())
 
@@ -1224,12 +1531,16 @@ def run(ctx):
         pts = [0, 1, 59, 60, 86399, 86400, 951782399, 951782400, 1005268127, 2 ** 31 - 1, 2 ** 31, 4102444800, 253402300799]
         for d in pts:
             yield {"kind": "if-range-date", "d": d, "lms": [None, max(0, d - 1), d, min(253402300799, d + 1), 0, 10 ** 9],
-                   "how": "header"}
+                   "how": LM_HOWS[d % len(LM_HOWS)], "form": DATE_FORMS[(d // 7) % len(DATE_FORMS)]}
+            for how in LM_HOWS:
+                for form in DATE_FORMS:
+                    yield {"kind": "if-range-date", "d": d, "lms": [None, max(0, d - 1), d, min(253402300799, d + 1)],
+                           "how": how, "form": form}
         for _ in range(ctx.scale(400, 10000)):
             d = r.randrange(0, 5 * 10 ** 9)
             yield {"kind": "if-range-date", "d": d,
                    "lms": [None, max(0, d - 1), d, d + 1, r.randrange(0, 5 * 10 ** 9), max(0, d - r.randrange(1, 10 ** 6))],
-                   "how": r.choice(["header", "attr"])}
+                   "how": r.choice(LM_HOWS), "form": r.choice(DATE_FORMS), "style": r.choice(REQ_STYLES)}
 
     sweep("if-range-date", if_range_dates())
 
@@ -1247,7 +1558,7 @@ def run(ctx):
             k = r.random()
             v = r_datey(r) if k < 0.3 else (r_malformed(r, 12) if k < 0.7 else mutate(r_header_value(r), r))
             if v:
-                yield {"kind": "malformed", "value": v}
+                yield {"kind": "malformed", "value": v, "style": r.choice(REQ_STYLES)}
 
     sweep("malformed", malformed())
 
@@ -1281,6 +1592,40 @@ def run(ctx):
 
     sweep("history-response", resp_histories())
 
+    # ---- argument shapes of the setters, md5_etag, and the outside of the model's value domains
+    def setter_shapes():
+        pool = [["a"], ["a", "b"], ["a\\", ","], [""], ["x y", "a", "\xe9"], ["v1", "v1"], ["W/a"], ["*"]]
+        for tags in pool:
+            for which in GETTERS:
+                for form in ("matcher", "any", "no", "none-after-value", "del-after-value"):
+                    yield {"kind": "setter-shapes", "tags": tags, "which": which, "form": form}
+
+    sweep("setter-shapes", setter_shapes())
+    sweep("md5-etag", [{"kind": "md5-etag", "body": b.hex(), "cfg": cfg} for cfg in RESP_CFGS
+                       for b in (b"", b"hello", b"\xff" * 7, bytes(range(256)), b"a" * 5000)])
+
+    def outside():
+        for i in range(len(OUTSIDE_ETAG_VALUES)):
+            for pair in (None, True, False):
+                for cfg in RESP_CFGS:
+                    yield {"kind": "etag-outside", "index": i, "pair": pair, "cfg": cfg}
+        for which in GETTERS:
+            for form in ("bytes", "int", "list", "asctime", "false", "zero"):
+                yield {"kind": "header-outside", "which": which, "form": form}
+
+    sweep("outside-domain", outside())
+
+    def beyond_etagc():
+        # tag texts outside RFC etagc but inside the theorem (anything but DQUOTE): controls, LF, NUL, DEL, NEL, astral
+        r = ctx.sub_rng("oracle-beyond-etagc")
+        alpha = ["\n", "\r", "\x00", "\x7f", "\x85", "\x1f", "\u2028", "\U0001f600", "\ud7ff", "a", ",", " ", "\\", "\t"]
+        for i in range(ctx.scale(1500, 30000)):
+            items = r_items(r, SEPS_RFC, 4, alpha)
+            yield list_case(items, r.choice(["", ",", " "]), r.choice(["", ",", " ,"]),
+                            r.choice(["environ", "base-environ", "attr", "ctor-kw", "subclass-copy"]))
+
+    sweep("lists-beyond-etagc", beyond_etagc())
+
     ctx.extra["rule"] = (
         "correspondence: header values rendered from random tag lists (tags over {a , SP \\ e-acute b W / * TAB}, RFC separators "
         "and wild ones such as ';', LF, NEL, NBSP, U+3000, none), one-edit mutants and random strings over a quote-heavy alphabet; "
@@ -1296,7 +1641,15 @@ def run(ctx):
         "(whose state must not change), ONE Response whose etag is set/cleared/read repeatedly with strong/weak flips and "
         "echoed through ONE Request under all three getters in rotating order, and fresh header values evaluated under the "
         "three getters in all 6 orders (module-level state); every answer is compared with the reference and with a new "
-        "object; getters-history / set-etag-history feed the same long-lived objects to the Coq model.  non-trivial = list cases with >1 tag or a non-alphanumeric tag; all other oracle cases count as "
+        "object; getters-history / set-etag-history feed the same long-lived objects to the Coq model.  Configurations: every case "
+        "rotates through 8 ways of getting the header into a Request (environ edit, headers= canonical/lower-case, "
+        "BaseRequest(environ), headers view, constructor keyword, attribute setter, POST subclass + copy) and 6 Response "
+        "configurations (plain, subclass with overridden defaults, status text + charset, pre-existing etag/ETAG headers, "
+        "exception instance, conditional 206); etag assignment in 9 shapes (str, str subclass, bool/int/object flag, "
+        "namedtuple, constructor, after None/del); Last-Modified in 6 shapes, If-Range dates in 4; setter-shapes = matcher "
+        "objects / None / del assigned to the request attributes; outside-domain = values with DQUOTE, CR/LF, non-str values "
+        "and non-str environ entries (refusal without damage, coherent views); lists-beyond-etagc = tags with controls, LF, "
+        "NUL, astral code points.  non-trivial = list cases with >1 tag or a non-alphanumeric tag; all other oracle cases count as "
         "non-trivial when distinct" % (ctx.scale(3, 5)))
     ctx.extra["exhaustive"] = False
     ctx.assume += [
